@@ -556,9 +556,17 @@ func (c *DnsCache) GetPackedResponseWithApproximateTTL(qname string, qtype uint1
 		}
 	}
 
-	// Return current response (might be slightly stale, but acceptable)
+	// Another goroutine may hold the refresh (it won the CAS above and has not published yet):
+	// the bytes we can load now may still carry the TTL packed long ago. Hand them out only if
+	// that TTL is within the threshold; otherwise return nil and let the caller build an answer
+	// with the exact remaining TTL. The TTL is loaded before the pointer: prepackResponseWithTTL
+	// stores the pointer first, so a TTL that passes the test belongs to these or newer bytes.
+	cachedTTL := c.packedResponseTTL.Load()
 	packedPtr = c.packedResponse.Load()
 	if packedPtr == nil || *packedPtr == nil {
+		return nil
+	}
+	if cachedTTL > currentTTL && cachedTTL-currentTTL > ttlRefreshThresholdSeconds {
 		return nil
 	}
 	return *packedPtr
